@@ -197,6 +197,9 @@ class Model:
                  "RETR", "TYPE", "PBSZ", "PROT", "PASV", "EPSV", "ABOR"}
         if v not in known:
             return Expect(["502"], note="unknown verb")
+        if v == "ABOR":
+            # (needs no login: it only ever touches transfers of this very session; C14: "with no transfer at all - a single 226")
+            return Expect(["226"])
         if not self.logged:
             return self._need_login()
         if v == "PWD":
